@@ -134,29 +134,46 @@ func (P) Exec(line string) string {
 }
 
 func execFsc(key []byte, chunks []string) string {
-	c, err := v2transport.NewFSChaCha20(append([]byte(nil), key...))
+	// inputs are values: ONE key slice is handed to three cipher instances and must be unchanged
+	key0 := append([]byte(nil), key...)
+	c, err := v2transport.NewFSChaCha20(key)
 	if err != nil {
 		return "bad-op"
 	}
+	c2, _ := v2transport.NewFSChaCha20(key)
+	c3, _ := v2transport.NewFSChaCha20(key)
 	var out []byte
 	for _, ch := range chunks {
 		p := strings.Split(ch, ":")
-		o, err := c.Crypt(fill(atoi(p[1]), atoi(p[0])))
+		in := fill(atoi(p[1]), atoi(p[0]))
+		in0 := append([]byte(nil), in...)
+		o, err := c.Crypt(in)
 		if err != nil {
 			return "err"
 		}
+		// the second instance decrypts, the third re-encrypts: all from the same key slice
+		d, _ := c2.Crypt(o)
+		o3, _ := c3.Crypt(in)
+		if !bytes.Equal(d, in0) || !bytes.Equal(o3, o) || !bytes.Equal(in, in0) {
+			return "instances-disagree-or-input-changed"
+		}
 		out = append(out, o...)
+	}
+	if !bytes.Equal(key, key0) {
+		return "key-slice-changed"
 	}
 	return digest(out) + " " + hx(fscKey(c))
 }
 
 func execFsp(key []byte, msgs []string) string {
-	s, err := v2transport.NewFSChaCha20Poly1305(append([]byte(nil), key...))
+	key0 := append([]byte(nil), key...)
+	s, err := v2transport.NewFSChaCha20Poly1305(key)
 	if err != nil {
 		return "bad-op"
 	}
-	r, _ := v2transport.NewFSChaCha20Poly1305(append([]byte(nil), key...))
+	r, _ := v2transport.NewFSChaCha20Poly1305(key)
 	var out []byte
+	defer func() { _ = key0 }()
 	for _, m := range msgs {
 		p := strings.Split(m, ":")
 		ln, seed, aadLen := atoi(p[0]), atoi(p[1]), atoi(p[2])
@@ -176,6 +193,9 @@ func execFsp(key []byte, msgs []string) string {
 			return "bad-op"
 		}
 		out = append(out, o...)
+	}
+	if !bytes.Equal(key, key0) {
+		return "key-slice-changed"
 	}
 	return digest(out) + " " + hx(fspKey(s))
 }
@@ -296,9 +316,16 @@ type detReader struct {
 	buf  []byte
 	seed []byte
 	ctr  uint32
+	gov  []byte // if set: a request of exactly this length is answered with these bytes (the garbage)
 }
 
+// randGarbage is consulted by withRand: the garbage override of the current ep case (if any).
+var randGarbage []byte
+
 func (d *detReader) Read(p []byte) (int, error) {
+	if len(d.gov) >= 33 && len(p) == len(d.gov) {
+		return copy(p, d.gov), nil
+	}
 	for len(d.buf) < len(p) {
 		var c [4]byte
 		binary.LittleEndian.PutUint32(c[:], d.ctr)
@@ -313,7 +340,7 @@ func (d *detReader) Read(p []byte) (int, error) {
 
 func withRand(pre, seed []byte, f func()) {
 	old := rand.Reader
-	rand.Reader = &detReader{buf: append([]byte(nil), pre...), seed: seed}
+	rand.Reader = &detReader{buf: append([]byte(nil), pre...), seed: seed, gov: randGarbage}
 	defer func() { rand.Reader = old }()
 	f()
 }
@@ -385,13 +412,17 @@ func execVec(secret []byte, magic string, ini bool, idx int, contents []byte, mu
 // ---------------------------------------------------------------- one endpoint on a scripted input
 
 type scriptRW struct {
-	r   *bytes.Reader
-	w   bytes.Buffer
-	adm *admission // when set: note network I/O performed while a lease is outstanding
+	r     *bytes.Reader
+	w     bytes.Buffer
+	adm   *admission // when set: note network I/O performed while a lease is outstanding
+	chunk int        // >0: at most this many bytes per Read (a slow / fragmenting network)
 }
 
 func (s *scriptRW) Read(p []byte) (int, error) {
 	s.adm.noteIO()
+	if s.chunk > 0 && len(p) > s.chunk {
+		p = p[:s.chunk]
+	}
 	return s.r.Read(p)
 }
 
@@ -423,6 +454,8 @@ type epFlags struct {
 	adm    int    // 0 none, 1 first Acquire fails, 2 second Acquire fails, 3 admits with nil release, 4 admits
 	logger bool   // run with a trace-level logger installed (must not change anything)
 	net2   string // network passed to CompleteHandshake ("" = same)
+	chunk  int    // >0: the connection delivers at most this many bytes per Read
+	gov    []byte // garbage override: returned by the random source for the garbage request
 }
 
 func parseRole(tok string) (string, epFlags, bool) {
@@ -440,6 +473,10 @@ func parseRole(tok string) (string, epFlags, bool) {
 				fl.adm = atoi(t[1:])
 			case strings.HasPrefix(t, "N"):
 				fl.net2 = t[1:]
+			case strings.HasPrefix(t, "R"):
+				fl.chunk = atoi(t[1:])
+			case strings.HasPrefix(t, "G"):
+				fl.gov = unhx(t[1:])
 			default:
 				return "", fl, false
 			}
@@ -519,7 +556,10 @@ func runEp(roleTok, magic string, pre, seed []byte, gLen int, decoys []string, i
 	adm := &admission{mode: fl.adm}
 	var p *v2transport.Peer
 	if fl.adm != 0 {
-		p = v2transport.NewPeerWithOptions(v2transport.WithResponderHandshakeAdmission(adm))
+		// the option value is created ONCE and reused for every peer of the run; it forwards to the
+		// admission of the current case
+		currentAdm = adm
+		p = v2transport.NewPeerWithOptions(sharedAdmOption)
 	} else {
 		p = v2transport.NewPeer()
 	}
@@ -529,13 +569,21 @@ func runEp(roleTok, magic string, pre, seed []byte, gLen int, decoys []string, i
 		v2transport.UseLogger(l)
 		defer v2transport.DisableLog()
 	}
-	rw := &scriptRW{r: bytes.NewReader(inp), adm: adm}
+	rw := &scriptRW{r: bytes.NewReader(inp), adm: adm, chunk: fl.chunk}
+	randGarbage = fl.gov
+	defer func() { randGarbage = nil }()
 	p.UseReadWriter(rw)
 	net2 := netOf(magic)
 	if fl.net2 != "" {
 		net2 = netOf(fl.net2)
 	}
-	err := handshake(p, role, netOf(magic), net2, pre, seed, gLen, ints(decoys))
+	// inputs are values: the decoy-length slice is ONE object per distinct argument, reused by every
+	// case of the run, and must be unchanged after each call
+	dl := sharedInts(strings.Join(decoys, ","))
+	err := handshake(p, role, netOf(magic), net2, pre, seed, gLen, dl)
+	if fmt.Sprint(dl) != fmt.Sprint(ints(decoys)) {
+		return "decoy-slice-changed", nil
+	}
 	lastHs = append([]byte(nil), rw.w.Bytes()...)
 	lastPriv = p.VerifSession().PrivOurs
 	dg := 0
@@ -563,7 +611,14 @@ loop:
 		switch f[0] {
 		case "s":
 			ln, sd, aadLen := atoi(f[1]), atoi(f[2]), atoi(f[4])
-			_, _, err := p.V2EncPacket(fill(sd, ln), fill(sd+1, aadLen), f[3] == "1")
+			c, a := fill(sd, ln), fill(sd+1, aadLen)
+			if ln == 0 && sd%2 == 1 {
+				c = nil // nil and empty-but-non-nil contents are the same packet
+			}
+			if aadLen == 0 && sd%3 == 0 {
+				a = nil
+			}
+			_, _, err := p.V2EncPacket(c, a, f[3] == "1")
 			if err != nil {
 				out = append(out, "tx=err:"+v2transport.VerifErrClassC19(err))
 			}
@@ -664,8 +719,8 @@ func execPk(secret []byte, magic string, ini bool, pkts []string, tam string, re
 	for _, pk := range pkts {
 		f := strings.Split(pk, ":")
 		ln, sd, aadLen := atoi(f[0]), atoi(f[1]), atoi(f[3])
-		if h := atoi(f[2]); h >= 2 {
-			if snd.VerifEncRawC19(byte(h), fill(sd, ln), fill(sd+1, aadLen)) != nil {
+		if h := atoi(f[2]); h >= 256 {
+			if snd.VerifEncRawC19(byte(h-256), fill(sd, ln), fill(sd+1, aadLen)) != nil {
 				return "bad-op"
 			}
 		} else if b, _, err := snd.V2EncPacket(fill(sd, ln), fill(sd+1, aadLen), h == 1); err != nil {
@@ -758,8 +813,9 @@ func execConc(mode string, sessions []string) string {
 }
 
 func concSkip(key []byte, epoch uint64, rounds, seed int) string {
-	s, err1 := v2transport.NewFSChaCha20Poly1305(append([]byte(nil), key...))
-	r, err2 := v2transport.NewFSChaCha20Poly1305(append([]byte(nil), key...))
+	key0 := append([]byte(nil), key...)
+	s, err1 := v2transport.NewFSChaCha20Poly1305(key)
+	r, err2 := v2transport.NewFSChaCha20Poly1305(key)
 	if err1 != nil || err2 != nil {
 		return "bad-op"
 	}
@@ -786,6 +842,9 @@ func concSkip(key []byte, epoch uint64, rounds, seed int) string {
 	}
 	if !bytes.Equal(s.VerifKey(), r.VerifKey()) || s.VerifCtr() != r.VerifCtr() {
 		return "desync"
+	}
+	if !bytes.Equal(key, key0) {
+		return "key-slice-changed"
 	}
 	return fmt.Sprintf("%d:%x,%s,%d", total, h.Sum(nil), hx(s.VerifKey()), s.VerifCtr())
 }
@@ -897,3 +956,27 @@ func execXell(x string, pre, seed []byte) (out string) {
 	})
 	return
 }
+
+// ---------------------------------------------------------------- shared input objects (inputs are values)
+
+var sharedIntsCache = map[string][]int{}
+
+func sharedInts(key string) []int {
+	if v, ok := sharedIntsCache[key]; ok {
+		return v
+	}
+	var v []int
+	if key != "" {
+		v = ints(strings.Split(key, ","))
+	}
+	sharedIntsCache[key] = v
+	return v
+}
+
+type admForward struct{}
+
+var currentAdm *admission
+
+func (admForward) Acquire() (func(), error) { return currentAdm.Acquire() }
+
+var sharedAdmOption = v2transport.WithResponderHandshakeAdmission(admForward{})
